@@ -33,6 +33,19 @@ class _ObjClasses(dict):
             self["Tag"] = (T.Tag, ["_interpreter", "_abi", "_platform", "_hash"])
             from packaging import specifiers as SP
             self["Specifier"] = (SP.Specifier, ["_spec", "_prereleases"])
+            # --- x3
+            from packaging import _parser as PA, markers as MK
+            for n in ("Variable", "Value", "Op"):
+                self[n] = (getattr(PA, n), ["value"])
+            self["Marker"] = (MK.Marker, ["_markers"])
+            self["version_info"] = (version_info, ["major", "minor", "micro", "releaselevel", "serial"])
+            self["raise"] = (Raise, ["cls"])
+            from packaging import _tokenizer as TK
+            self["Tokenizer"] = (TK.Tokenizer, ["source", "position", "next_token"])
+            self["Token"] = (TK.Token, ["name", "text", "position"])
+            self["ParsedRequirement"] = (PA.ParsedRequirement, list(PA.ParsedRequirement._fields))
+            from packaging import metadata as MD
+            self["_Validator"] = (MD._Validator, ["name", "raw_name", "added"])
 
     def __contains__(self, k):
         self._load()
@@ -61,11 +74,15 @@ def enc_val(v) -> str:
         return "s" + core.enc(v)
     if isinstance(v, Env):
         return "L[" + ",".join("U[" + enc_val(k) + "," + enc_val(x) + "]" for k, x in v) + "]"
+    if isinstance(v, dict):                                                    # x3
+        return "D[" + ",".join("U[" + enc_val(k) + "," + enc_val(x) + "]" for k, x in v.items()) + "]"
     if isinstance(v, list):
         return "L[" + ",".join(enc_val(x) for x in v) + "]"
     if isinstance(v, (set, frozenset)):        # x2: members sorted by wire form (hash-table order is not modelled)
         return "O" + type(v).__name__ + "{items=L[" + ",".join(sorted(enc_val(x) for x in v)) + "]}"
     tn = type(v).__name__
+    if tn in OPAQUE_CLASSES:                      # x3: objects of other libraries / untracked classes, known by class and text
+        return "Oopaque{cls=" + enc_val(tn) + ",str=" + enc_val(str(v)) + "}"
     if tn == "NegativeInfinityType":
         return "m"
     if tn == "InfinityType":
@@ -73,12 +90,15 @@ def enc_val(v) -> str:
     if tn in _OBJ_CLASSES:
         cls, fields = _OBJ_CLASSES[tn]
         # hash values are the interpreter's (and randomised for str): the run-time's stand-in is 0
-        return "O" + tn + "{" + ",".join(f"{k}={'i0' if k == '_hash' else enc_val(getattr(v, k))}" for k in fields) + "}"
+        return "O" + tn + "{" + ",".join(f"{k}={'i0' if k == '_hash' else enc_val(getattr(v, k))}" for k in fields if hasattr(v, k)) + "}"
     if isinstance(v, tuple):
         return "U[" + ",".join(enc_val(x) for x in v) + "]"
     if isinstance(v, types.GeneratorType) or (hasattr(v, "__next__") and hasattr(v, "__iter__")):
         return "I[" + ",".join(enc_val(x) for x in v) + "]"
     raise TypeError(f"no wire form for {type(v).__name__}")
+
+
+OPAQUE_CLASSES = {"SpecifierSet", "Requirement", "PurePosixPath", "PureWindowsPath"}
 
 
 class _P:
@@ -102,7 +122,7 @@ class _P:
             tok = s[self.i:j]
             self.i = j
             return int(tok) if c == "i" else core.dec(tok)
-        if c in "LUI":
+        if c in "LUID":
             assert s[self.i] == "["
             self.i += 1
             out = []
@@ -112,6 +132,8 @@ class _P:
                     continue
                 out.append(self.val())
             self.i += 1
+            if c == "D":
+                return {k: v for k, v in out}
             return out if c == "L" else tuple(out) if c == "U" else iter(out)
         if c in "mp":
             from packaging import _structures
@@ -139,6 +161,11 @@ class _P:
             cls, _ = _OBJ_CLASSES[name]
             if issubclass(cls, tuple):
                 return cls(**fields)
+            if name == "Tokenizer":                       # x3: a real tokenizer (compiled rules) moved to the position
+                from packaging import _tokenizer as TK
+                o = TK.Tokenizer(fields["source"], rules=TK.DEFAULT_RULES)
+                o.position, o.next_token = fields["position"], fields["next_token"]
+                return o
             o = object.__new__(cls)
             for k, v in fields.items():
                 object.__setattr__(o, k, v)
@@ -479,6 +506,489 @@ def _g_spec_filter(rng):
     return [sp, items, rng.choice([None, None, None, True, False])]
 
 
+# ------------------------------------------------------------------------------------------------ x3: markers
+class version_info:
+    """stand-in for `sys.implementation.version` (attribute access only)"""
+
+
+class Raise:
+    """result of an oracle call that raised: travels as `Oraise{cls=s…}`"""
+    def __init__(self, cls):
+        self.cls = cls
+
+
+Raise.__name__ = "raise"
+
+
+class Oracle(list):
+    """first argument of a translated function that calls functions modelled elsewhere: [(name, args, result), …]"""
+
+
+def _record(module_name, names, fn, args):
+    """run the real `fn(*args)` with the oracle functions of the module wrapped so that every call is recorded"""
+    import copy
+    import inspect
+    mod = importlib.import_module(module_name)
+    rec = Oracle()
+    saved = {}
+
+    def wrap_function(name, real):
+        sig = inspect.signature(real)
+
+        def w(*a, **k):
+            b = sig.bind(*a, **k)
+            b.apply_defaults()
+            key = tuple(copy.deepcopy(list(b.arguments.values())))
+            try:
+                r = real(*a, **k)
+            except Exception as e:
+                rec.append((name, key, Raise(type(e).__name__)))
+                raise
+            rec.append((name, key, copy.deepcopy(r)))
+            return r
+        return w
+
+    def wrap_class(name, real, methods):
+        ns = {}
+        isig = inspect.signature(real.__init__)
+
+        def __init__(self, *a, **k):
+            b = isig.bind(self, *a, **k)
+            b.apply_defaults()
+            key = tuple(list(b.arguments.values())[1:])
+            try:
+                real.__init__(self, *a, **k)
+            except Exception as e:
+                rec.append((name, key, Raise(type(e).__name__)))
+                raise
+            rec.append((name, key, copy.copy(self)))
+        ns["__init__"] = __init__
+        for m in methods:
+            rm = getattr(real, m)
+            msig = inspect.signature(rm)
+
+            def meth(self, *a, _rm=rm, _msig=msig, _m=m, **k):
+                b = _msig.bind(self, *a, **k)
+                b.apply_defaults()
+                key = tuple([copy.copy(self)] + list(b.arguments.values())[1:])
+                try:
+                    r = _rm(self, *a, **k)
+                except Exception as e:
+                    rec.append((f"{name}.{_m}", key, Raise(type(e).__name__)))
+                    raise
+                rec.append((f"{name}.{_m}", key, r))
+                return r
+            ns[m] = meth
+        return type(name, (real,), ns)
+
+    classes = {}
+    for n in names:
+        if "." in n:
+            classes.setdefault(n.split(".")[0], []).append(n.split(".")[1])
+    for n in names:
+        if "." in n:
+            continue
+        real = getattr(mod, n)
+        saved[n] = real
+        setattr(mod, n, wrap_class(n, real, classes.get(n, [])) if isinstance(real, type) else wrap_function(n, real))
+    try:
+        try:
+            fn(*copy.deepcopy(args))
+        except Exception:
+            pass
+    finally:
+        for n, v in saved.items():
+            setattr(mod, n, v)
+    out = Oracle()
+    seen = set()
+    for e in rec:
+        k = enc_val(e[0]) + enc_val(e[1])
+        if k not in seen:
+            seen.add(k)
+            out.append(e)
+    return out
+
+
+def _record_dotted(module_name, names, fn, args):
+    """like `_record`, for oracle names reached through a module attribute (`utils.canonicalize_name`,
+    `pathlib.PurePosixPath`) and for methods of the objects those constructors return (`PurePosixPath.is_absolute`):
+    the function is replaced in its home module, methods are shadowed on their class, for the duration of the call"""
+    import copy
+    import inspect
+    mod = importlib.import_module(module_name)
+    rec = Oracle()
+    undo = []
+
+    def wrap(name, real, drop_self=False):
+        def w(*a, **k):
+            try:
+                sig = inspect.signature(real)
+                if any(p_.kind in (p_.VAR_POSITIONAL, p_.VAR_KEYWORD) for p_ in sig.parameters.values()):
+                    raise TypeError
+                b = sig.bind(*a, **k)
+                b.apply_defaults()
+                key = tuple(copy.copy(x) for x in b.arguments.values())
+            except (TypeError, ValueError):
+                key = tuple(a)
+            try:
+                r = real(*a, **k)
+            except Exception as e:
+                rec.append((name, key, Raise(type(e).__name__)))
+                raise
+            rec.append((name, key, r))
+            return r
+        return w
+
+    classes = {}
+    for n in names:
+        if "." not in n or n == "str.lower":
+            continue
+        head, attr = n.split(".", 1)
+        holder = getattr(mod, head, None)
+        if holder is not None and inspect.ismodule(holder):
+            real = getattr(holder, attr)
+            if isinstance(real, type):
+                classes[real.__name__] = real
+                ctor = wrap(n, real)
+                setattr(holder, attr, ctor)
+            else:
+                setattr(holder, attr, wrap(n, real))
+            undo.append((holder, attr, real, True))
+    for n in names:
+        if "." in n and n.split(".", 1)[0] in classes:
+            cls = classes[n.split(".", 1)[0]]
+            attr = n.split(".", 1)[1]
+            real = getattr(cls, attr)
+            had = attr in cls.__dict__
+            setattr(cls, attr, wrap(n, real))
+            undo.append((cls, attr, real, had))
+    try:
+        try:
+            fn(*copy.deepcopy(args))
+        except Exception:
+            pass
+    finally:
+        for holder, attr, real, had in reversed(undo):
+            if had:
+                setattr(holder, attr, real)
+            else:
+                delattr(holder, attr)
+    if "str.lower" in names:                    # `str.lower` cannot be intercepted: tabulate it for every string in sight
+        def strings(v):
+            if isinstance(v, str):
+                yield v
+            elif isinstance(v, (list, tuple)):
+                for x in v:
+                    yield from strings(x)
+        for x in strings(list(args)):
+            rec.append(("str.lower", (x,), x.lower()))
+    out = Oracle()
+    seen = set()
+    for e in rec:
+        k = enc_val(e[0]) + enc_val(e[1])
+        if k not in seen:
+            seen.add(k)
+            out.append(e)
+    return out
+
+
+METADATA_ORACLES = ["utils.canonicalize_name", "version_module.parse", "specifiers.SpecifierSet", "requirements.Requirement",
+                    "licenses.canonicalize_license_expression", "pathlib.PurePosixPath", "pathlib.PureWindowsPath",
+                    "PurePosixPath.is_absolute", "PureWindowsPath.is_absolute", "PureWindowsPath.as_posix", "str.lower"]
+
+
+def _g_validator(field, wrong=("", None, [], ["x"], "x")):
+    def g(rng):
+        from packaging import metadata as MD
+        from gen import metadata as GM
+        good, bad, esc = GM.POOLS[field]
+        r = rng.random()
+        if r < 0.5 and good:
+            v = rng.choice(good)
+        elif r < 0.85 and bad:
+            v = rng.choice(bad)
+        elif r < 0.93 and esc:
+            v = rng.choice(esc)
+        else:
+            v = rng.choice(good or bad)
+        if isinstance(v, str) and any(0xD800 <= ord(c) <= 0xDFFF for c in v):
+            v = "x"
+        self_ = MD.Metadata.__dict__[field]
+        name = "_Validator._process_" + field
+        f = _resolve(*FUNCS[name][:2])
+        if name not in EXT_FUNCS:
+            return [self_, v]
+        return [_record_dotted("packaging.metadata", METADATA_ORACLES, f, [self_, v]), self_, v]
+    return g
+
+
+def _g_parse_keywords(rng):
+    from gen import metadata as GM
+    return [rng.choice(["a,b", "", ",", " a , b ,c", "one", "a,,b", "\u2003x\u2003,\xa0y", "x\x1f, y\x85", ",a", "a b,c d"] + GM.TEXTS)]
+
+
+def _g_parse_project_urls(rng):
+    pool = ["Home, https://example.com", "Docs,https://d", "Home,other", "nocomma", "", ",", " , ", "a,b,c", " Home ,  u ",
+            "\u2003L\u2003,\xa0u", "x", "x,", ",y"]
+    return [[rng.choice(pool) for _ in range(rng.choice([0, 1, 2, 2, 3, 4]))]]
+
+
+MARKER_ORACLES = ["canonicalize_name", "Specifier", "Specifier.contains", "default_environment"]
+
+
+def _with_oracle(name, args, call=None):
+    mod, path, _ = FUNCS[name]
+    f = _resolve(mod, path)
+    return [_record(mod, MARKER_ORACLES, call or f, args)] + args
+
+
+def _marker_text(rng, depth=None):
+    from gen import markers as G
+    while True:
+        try:
+            pool = G.make_pool(rng)
+            tree = G.formula(rng, pool, depth=depth if depth is not None else rng.choice([0, 0, 1, 1, 2, 3, 4]), p_odd=0.08)
+            return pool, tree, G.render(tree, rng, extra_paren=rng.choice([0.1, 0.3, 0.6]), respell_extra=rng.random() < 0.5)
+        except G.OutOfDomain:
+            continue
+
+
+def _parsed(rng):
+    from packaging import _parser as PA
+    while True:
+        pool, tree, s = _marker_text(rng)
+        try:
+            return pool, tree, PA.parse_marker(s)
+        except Exception:
+            continue
+
+
+def _g_normalize_extra_values(rng):
+    return _with_oracle("_normalize_extra_values", [_parsed(rng)[2]])
+
+
+def _g_format_marker(rng):
+    from packaging import markers as MK
+    m = _parsed(rng)[2]
+    if rng.random() < 0.5:
+        m = MK._normalize_extra_values(m)
+    r = rng.random()
+    if r < 0.15:
+        m = rng.choice(m)                       # a tuple, a str or a nested list
+    elif r < 0.25:
+        m = [m]
+    elif r < 0.3:
+        m = rng.choice([[], [[]], ["and"], [[["or"]]]])
+    return [m, rng.choice([True, True, False, None])]
+
+
+def _g_eval_op(rng):
+    from packaging import _parser as PA
+    from gen import markers as G
+    pool = G.make_pool(rng)
+    op = rng.choice(G.OPS + ["~=", "===", "<", ">=", "foo", ""])
+    lhs, rhs = G.literal(rng, pool), G.literal(rng, pool)
+    if rng.random() < 0.3:
+        rhs = lhs
+    return _with_oracle("_eval_op", [lhs, PA.Op(op), rhs])
+
+
+def _g_normalize(rng):
+    from gen import markers as G
+    pool = G.make_pool(rng) + ["Foo_Bar", "foo-bar", "FOO.BAR", "a__b"]
+    vals = tuple(rng.choice(pool) for _ in range(rng.choice([2, 2, 2, 0, 1, 3])))
+    f = _resolve(*FUNCS["_normalize"][:2])
+    key = rng.choice(["extra", "extra", "os_name", "Extra", ""])
+    return _with_oracle("_normalize", [vals, key], call=lambda v, k: f(*v, key=k))
+
+
+def _g_get_env(rng):
+    from gen import markers as G
+    env = G.environment(rng, G.make_pool(rng)) or {}
+    return [env, rng.choice(G.VARS + ["foo", "", "Extra"])]
+
+
+def _full_env(rng, pool):
+    from gen import markers as G
+    from gen import marker_real as R
+    env = dict(R.default_env())
+    env["extra"] = ""
+    sup = G.environment(rng, pool) or {}
+    env.update({k: v for k, v in sup.items() if v is not None})
+    if rng.random() < 0.1:
+        env.pop(rng.choice(sorted(env)))
+    return env
+
+
+def _g_evaluate_markers(rng):
+    from packaging import markers as MK
+    pool, tree, m = _parsed(rng)
+    m = MK._normalize_extra_values(m)
+    if rng.random() < 0.04:
+        m = rng.choice([[], ["and"], m + ["xor"], [m, "or", []]])
+    return _with_oracle("_evaluate_markers", [m, _full_env(rng, pool)])
+
+
+def _g_format_full_version(rng):
+    v = version_info()
+    v.major, v.minor, v.micro = rng.choice([3, 7, 0, 12]), rng.choice([0, 9, 13, 100]), rng.choice([0, 1, 17])
+    v.releaselevel = rng.choice(["final", "final", "alpha", "beta", "candidate", "", "f"])
+    v.serial = rng.choice([0, 1, 2, 15])
+    return [v]
+
+
+def _g_repair(rng):
+    from gen import markers as G
+    env = _full_env(rng, G.make_pool(rng))
+    if rng.random() < 0.4:
+        env["python_full_version"] = rng.choice(["3.12.0+", "+", "3.9.1", "", "3.13.0a1+", "++"])
+    return [env]
+
+
+def _marker_obj(rng):
+    from packaging import markers as MK
+    while True:
+        pool, tree, s = _marker_text(rng)
+        try:
+            return pool, MK.Marker(s)
+        except Exception:
+            continue
+
+
+def _g_marker_self(rng):
+    return [_marker_obj(rng)[1]]
+
+
+def _g_marker_eq(rng):
+    from packaging import markers as MK
+    from gen import markers as G
+    pool, tree, s = _marker_text(rng)
+    try:
+        a = MK.Marker(s)
+    except Exception:
+        return _g_marker_eq(rng)
+    r = rng.random()
+    if r < 0.5:
+        try:
+            b = MK.Marker(G.render(tree, rng, respell_extra=True))
+        except Exception:
+            b = a
+    elif r < 0.9:
+        b = _marker_obj(rng)[1]
+    else:
+        b = rng.choice([None, 1, str(a), [str(a)]])
+    return [a, b]
+
+
+def _g_marker_init(rng):
+    from packaging import markers as MK
+    from gen import markers as G
+    text = _marker_text(rng)[2]
+    if rng.random() < 0.25:
+        text = G.damage(rng, text)
+    return _with_oracle("Marker.__init__", [object.__new__(MK.Marker), text])
+
+
+def _g_marker_evaluate(rng):
+    from gen import markers as G
+    pool, m = _marker_obj(rng)
+    env = G.environment(rng, pool)
+    return _with_oracle("Marker.evaluate", [m, env])
+
+
+# ------------------------------------------------------------------------------------------------ x3: the parser
+PARSER_FUNCS = ["_parse_marker_var", "_parse_marker_op", "_parse_marker_item", "_parse_marker_atom", "_parse_marker",
+                "_parse_full_marker", "_parse_version_many", "_parse_specifier", "_parse_extras_list", "_parse_extras",
+                "_parse_requirement_marker", "_parse_requirement_details", "_parse_requirement"]
+
+
+def _parser_text(rng):
+    """a marker or a requirement, as written or damaged"""
+    from gen import markers as G
+    r = rng.random()
+    if r < 0.45:
+        s = _marker_text(rng)[2]
+        if rng.random() < 0.25:
+            s = G.damage(rng, s)
+        return s, "marker"
+    from props import C08
+    if r < 0.55:
+        return rng.choice(C08.WITNESS_TEXTS), "req"
+    s = C08.render(rng, C08.req_struct(rng), loose=rng.random() < 0.2)
+    if rng.random() < 0.3:
+        s = C08.damage_req(rng, s)
+    return s, "req"
+
+
+def _entries(text, kind):
+    """(function, position, extra arguments) at every entry into a parser function while the real parser runs on text"""
+    from packaging import _parser as PA
+    seen = []
+    saved = {}
+    for n in PARSER_FUNCS:
+        real = getattr(PA, n)
+        saved[n] = real
+
+        def w(tokenizer, *a, _n=n, _real=real, **k):
+            if tokenizer.next_token is None:
+                seen.append((_n, tokenizer.position, dict(k)))
+            return _real(tokenizer, *a, **k)
+        setattr(PA, n, w)
+    try:
+        try:
+            (PA.parse_marker if kind == "marker" else PA.parse_requirement)(text)
+        except Exception:
+            pass
+    finally:
+        for n, v in saved.items():
+            setattr(PA, n, v)
+    return seen
+
+
+def _g_parser_fn(name):
+    def g(rng):
+        from packaging import _tokenizer as TK
+        for _ in range(200):
+            text, kind = _parser_text(rng)
+            if rng.random() < 0.1:
+                text, kind = text, ("req" if kind == "marker" else "marker")      # the other grammar's text
+            hits = [e for e in _entries(text, kind) if e[0] == name]
+            if hits:
+                _, pos, kw = rng.choice(hits)
+                t = TK.Tokenizer(text, rules=TK.DEFAULT_RULES)
+                t.position = pos
+                return [t] + [kw[k] for k in kw]
+        t = TK.Tokenizer(_parser_text(rng)[0], rules=TK.DEFAULT_RULES)
+        return [t] + ([0, "x"] if name == "_parse_requirement_marker" else [])
+    return g
+
+
+def _g_parse_source(rng):
+    text, kind = _parser_text(rng)
+    return [text]
+
+
+def _g_process_env_var(rng):
+    from gen import markers as G
+    return [rng.choice(list(G.CANON_OF) + ["python_implementation", "platform.python_implementation", "x", ""]).replace(".", "_")]
+
+
+def _g_process_python_str(rng):
+    from props import C09
+    return [C09._lit_token(rng)]
+
+
+def _g_license(rng):
+    from gen import licenses as GL
+    r = rng.random()
+    if r < 0.12:
+        return [GL.arbitrary(rng)]
+    toks = GL.expr(rng)
+    if r < 0.45:
+        toks = GL.damage(rng, toks)[1]
+    return [GL.spell(rng, toks, recase=rng.random() < 0.7)]
+
+
 # lean name -> (module, attribute path, argument generator)
 FUNCS = {
     "_parse_letter_version": ("packaging.version", "_parse_letter_version", _g_parse_letter_version),
@@ -526,6 +1036,43 @@ FUNCS = {
     "Specifier.contains": ("packaging.specifiers", "Specifier.contains", _g_spec_contains),
     "Specifier.filter": ("packaging.specifiers", "Specifier.filter", _g_spec_filter),
 }
+# --- x3
+FUNCS.update({
+    "_normalize_extra_values": ("packaging.markers", "_normalize_extra_values", _g_normalize_extra_values),
+    "_format_marker": ("packaging.markers", "_format_marker", _g_format_marker),
+    "_eval_op": ("packaging.markers", "_eval_op", _g_eval_op),
+    "_normalize": ("packaging.markers", "_normalize", _g_normalize),
+    "_get_env": ("packaging.markers", "_get_env", _g_get_env),
+    "_evaluate_markers": ("packaging.markers", "_evaluate_markers", _g_evaluate_markers),
+    "format_full_version": ("packaging.markers", "format_full_version", _g_format_full_version),
+    "_repair_python_full_version": ("packaging.markers", "_repair_python_full_version", _g_repair),
+    "Marker.__str__": ("packaging.markers", "Marker.__str__", _g_marker_self),
+    "Marker.__eq__": ("packaging.markers", "Marker.__eq__", _g_marker_eq),
+    "Marker.__hash__": ("packaging.markers", "Marker.__hash__", _g_marker_self),
+    "Marker.evaluate": ("packaging.markers", "Marker.evaluate", _g_marker_evaluate),
+    "Marker.__init__": ("packaging.markers", "Marker.__init__", _g_marker_init),
+})
+FUNCS.update({n: ("packaging._parser", n, _g_parser_fn(n)) for n in PARSER_FUNCS})
+FUNCS.update({
+    "parse_marker": ("packaging._parser", "parse_marker", _g_parse_source),
+    "parse_requirement": ("packaging._parser", "parse_requirement", _g_parse_source),
+    "process_env_var": ("packaging._parser", "process_env_var", _g_process_env_var),
+    "process_python_str": ("packaging._parser", "process_python_str", _g_process_python_str),
+})
+FUNCS["_parse_keywords"] = ("packaging.metadata", "_parse_keywords", _g_parse_keywords)
+FUNCS["_parse_project_urls"] = ("packaging.metadata", "_parse_project_urls", _g_parse_project_urls)
+VALIDATOR_FIELDS = ["metadata_version", "name", "version", "summary", "dynamic", "provides_extra", "requires_python",
+                    "requires_dist", "license_expression", "license_files"]
+for _fld in VALIDATOR_FIELDS:
+    FUNCS["_Validator._process_" + _fld] = ("packaging.metadata", "_Validator._process_" + _fld, _g_validator(_fld))
+FUNCS["canonicalize_license_expression"] = ("packaging.licenses", "canonicalize_license_expression", _g_license)
+# functions over a shared tokenizer: the answer is the result together with the tokenizer afterwards
+STATE_FUNCS = set(PARSER_FUNCS)
+# functions whose first wire argument is the oracle table (the real function runs against the real callees)
+EXT_FUNCS = {"_normalize_extra_values", "_eval_op", "_normalize", "_evaluate_markers", "Marker.evaluate", "Marker.__init__"}
+EXT_FUNCS |= {"_Validator._process_" + f for f in VALIDATOR_FIELDS if f not in ("metadata_version", "summary")}
+# functions run with `hash` replaced by a symbolic stand-in in their module (see PyRt.hash_sym)
+SYM_HASH_FUNCS = {"Marker.__hash__": "packaging.markers"}
 
 
 ENV_FUNCS = {"compatible_tags", "cpython_tags", "_cpython_abis", "_get_config_var"}
@@ -698,20 +1245,35 @@ class _Src:
             f = _resolve(mod, path)
         except Exception as e:
             return "gone " + type(e).__name__
-        vals = [dec_val(a) for a in args[1:]]
+        vals = [dec_val(a) for a in (args[2:] if name in EXT_FUNCS else args[1:])]     # the oracle table is not decoded
         undo = None
         if name in ENV_FUNCS:
             env = vals.pop(0)
             undo = _apply_env([(k, (list(v) if k == "platform_tags" else v)) for k, v in env])
+        if name in SYM_HASH_FUNCS:
+            m_ = importlib.import_module(SYM_HASH_FUNCS[name])
+            m_.hash = lambda v: ("__hash__", v)
+
+            def undo(m_=m_):
+                del m_.hash
         try:
             import inspect
             params = list(inspect.signature(f).parameters.values())
-            pos = [v for p_, v in zip(params, vals) if p_.kind != p_.KEYWORD_ONLY]
+            pos = []
+            for p_, v in zip(params, vals):
+                if p_.kind == p_.VAR_POSITIONAL:
+                    pos.extend(v)               # x3: `*values` travels as one tuple
+                elif p_.kind != p_.KEYWORD_ONLY:
+                    pos.append(v)
             kw = {p_.name: v for p_, v in zip(params, vals) if p_.kind == p_.KEYWORD_ONLY}
             import warnings
             with warnings.catch_warnings():
                 warnings.simplefilter("ignore")                  # x2: warnings.warn(...) of the library is not an answer
                 r = f(*pos, **kw)
+                if name in STATE_FUNCS:
+                    return "ok " + enc_val((r, pos[0]))
+                if name.endswith(".__init__"):
+                    r = pos[0]                     # x3: the translated `__init__` hands back the initialised object
                 return "ok " + enc_val(r)          # a generator's body runs here, inside the try
         except RecursionError:
             return core.RESOURCE_LIMIT
